@@ -451,7 +451,8 @@ def known_match(pid, failure, known):
     for k in known:
         if k.get("status") != "open" or k["property"] != pid:
             continue
-        if failure.signature == k["signature"]:
+        sigs = k.get("signatures") or [k["signature"]]
+        if failure.signature in sigs:
             return k
     return None
 
